@@ -1,15 +1,7 @@
 SPECIFICATION Spec
 CONSTANTS
   Dev = "origin-any-host"
-  MaxOps = 0
-  Acts = {}
-  CloseBodies = {}
-  Payloads = {}
-  DataKinds = {}
-  ReadModes = {}
-  HandlerSets <- HDefault
-  Limits = {0}
-  Zs = {FALSE}
+  Configs <- ConfigsNeg
   NegSet <- NegAll
 INVARIANTS SameOriginOnly
 CHECK_DEADLOCK FALSE
